@@ -110,8 +110,26 @@ def max_len(seq):
     return t
 
 
+def merge_jumps(seq):
+    """hex_grammar.y (token_sequence, since fix F73) merges consecutive jumps into one whose bounds are the sums of theirs; `[1]` is `??`
+    (a token, not a jump) and is not merged. Applied recursively inside alternatives."""
+    out = []
+    for it in seq:
+        if it[0] == "alt":
+            it = ("alt", [merge_jumps(s) for s in it[1]]) + tuple(it[2:])
+        isj = it[0] == "j" and not (it[3] == "n" and it[1] == 1)
+        if isj and out and out[-1][0] == "j" and not (out[-1][3] == "n" and out[-1][1] == 1):
+            p = out[-1]
+            hi = None if (p[2] is None or it[2] is None) else p[2] + it[2]
+            out[-1] = ("j", p[1] + it[1], hi, "nm" if hi is not None else "n-")
+        else:
+            out.append(tuple(it) if it[0] == "j" else it)
+    return out
+
+
 def pieces(seq):
     """split the top-level sequence at the jumps the compiler chains at (first qualifying jump of each remainder)"""
+    seq = merge_jumps(seq)
     out, cur = [], []
     i = 0
     gaps = []
@@ -242,7 +260,7 @@ def seq_text(seq):
 def seq_ast(seq):
     """the RE_AST hex_grammar.y builds (n-ary concat; normalised later)"""
     xs = []
-    for it in seq:
+    for it in merge_jumps(seq):
         k = it[0]
         if k == "b": xs.append(("lit", it[1]))
         elif k == "a": xs.append(("any",))
@@ -474,9 +492,49 @@ def gen_big_jump(r):
     return seq, bytes(buf[:16000])
 
 
+def gen_consecutive_jumps(r):
+    """two or three jumps in a row between fixed pieces (legal: `tokens : token token_sequence token`): the grammar merges them into one jump
+    (fix F73); before that the second jump of a pair whose first one is a chaining point was emitted with its bounds truncated to 16 bits
+    (`41 [300] [2-65540] 42`).  Sums crossing the chaining threshold, a large second bound, and the same inside an alternative (small only)."""
+    pool = r.sample([0x11, 0x22, 0x33, 0x44, 0x55, 0x66, 0x77, 0x88, 0x99, 0xAB, 0xCD, 0xEF], 12)
+    piece = lambda: [("b", pool.pop()) for _ in range(r.choice([2, 3, 4]))]
+    a, b = piece(), piece()
+    def small():
+        lo = r.choice([0, 2, 3, 50, 100, 150, 199, 200])
+        return ("j", lo, lo, "nm") if r.random() < 0.4 or lo < 2 else ("j", lo, lo + r.choice([0, 1, 5, 60]), "nm")
+    def chaining():
+        lo = r.choice([201, 250, 300])
+        return ("j", lo, lo + r.choice([0, 0, 10, 100]), "nm")
+    def huge():
+        lo = r.choice([0, 2, 10])
+        return ("j", lo, 65536 + r.choice([0, 1, 4, 100, 300]), "nm")
+    shape = r.choice(["ch+huge", "ch+huge", "small+huge", "small+small", "small+small+small", "ch+small", "alt"])
+    if shape == "alt":
+        js = [("j", r.choice([2, 50, 100]), 150, "nm"), ("j", r.choice([2, 60]), 120, "nm")]
+        c = piece()
+        seq = a + [("alt", [[("b", 0x41)] + js + [("b", 0x42)], c])] + b
+        lo, hi = js[0][1] + js[1][1], js[0][2] + js[1][2]
+        mid = lambda g: bytes(t[1] for t in a) + b"\x41" + bytes(r.choice([0x00, 0x37, 0xF0]) for _ in range(g)) + b"\x42" + bytes(t[1] for t in b)
+        buf = b"\x00\x00" + mid(r.choice([lo, hi, (lo + hi) // 2, max(0, lo - 1), hi + 1])) + b"\x37" + mid(r.choice([lo, hi]))
+        return seq, buf
+    js = [{"ch": chaining, "small": small, "huge": huge}[k]() for k in shape.split("+")]
+    seq = a + js + b
+    lo = sum(j[1] for j in js)
+    hi = sum(j[2] for j in js)
+    fill = lambda n: bytes(r.choice([0x00, 0x37, 0x38, 0xF0]) for _ in range(n))
+    raw = lambda p: bytes(t[1] for t in p)
+    cands = [lo, lo + 1, lo + 6, lo + 10, lo + 70, max(0, lo - 1), min(hi, lo + 700), min(hi, 2500), hi + 1 if hi < 3000 else lo + 305]
+    buf = bytearray(fill(r.choice([0, 3])))
+    for _ in range(r.choice([1, 2])):
+        buf += raw(a) + fill(r.choice(cands)) + raw(b) + fill(r.choice([0, 2, 30]))
+    return seq, bytes(buf[:16000])
+
+
 def gen_case(r, cid):
     u0 = r.random()
-    if u0 < 0.07:
+    if u0 < 0.04:
+        seq, buf = gen_consecutive_jumps(r)
+    elif u0 < 0.09:
         seq, buf = gen_chain_decoy(r)
     elif u0 < 0.15:
         seq, buf = gen_big_jump(r)
